@@ -331,13 +331,20 @@ def merge_rules(run, R):
         # ... and merges exactly when the fragments do: nothing else (a pre-filter on cells, on order, on kind) decides
         if fm in calls:
             def atom2(c):
-                if c[0] == "discr" and strip(c[1])[0] == "call" and strip(c[1])[1] == fm and \
-                        [strip(a) for a in strip(c[1])[2]] == [("param", 1, ("fragment",)), ("param", 2, ("fragment",))]:
-                    return "fragments_merge"
+                if c[0] != "discr":
+                    return None
+                v = strip(c[1])
+                via_try = v[0] == "call" and v[1].endswith("Try>::branch") and v[2]
+                if via_try:
+                    v = strip(v[2][0])   # `x?`: discriminant 0 = Continue = Some
+                if v[0] == "call" and v[1] == fm and [strip(a) for a in v[2]] == [("param", 1, ("fragment",)), ("param", 2, ("fragment",))]:
+                    return ("not", "fragments_merge") if via_try else "fragments_merge"
                 return None
 
             def is_some2(r_):
                 r_ = strip(r_)
+                if r_[0] == "call" and "from_residual" in r_[1]:
+                    return False   # the early return of `?` on an Option
                 return (r_[2] == "Some") if r_[0] == "agg" and r_[2] in ("Some", "None") else None
             at, tb = bool_function(prog, fsm, atom2, keep=re.escape(fm) + "$|as_line$|is_line$", result=is_some2, free=True)
             if at is not None and "fragments_merge" in at and all(v == k[at.index("fragments_merge")] for k, v in tb.items()):
